@@ -134,3 +134,8 @@ def run(facts, res):
         res.instance("Q3", "commit restricts auto-resolution to array descriptors: %s" % ad, c.loc())
         if not ad:
             res.violation("Q3", "commit|auto-resolves-objects", "commit auto-resolves conflicts of ordinary objects", c.loc())
+
+
+def thorough(res):
+    from .. import engine
+    engine.sensitivity("C12", res)
